@@ -1,3 +1,217 @@
 import ClipVerif.Model.Lists
 namespace Proofs.C05
+open Gen Model
+
+theorem nequals_iff (p q : Point64) : Point64_NEquals p q = true ↔ p ≠ q := by
+  cases p; cases q
+  simp only [Point64_NEquals, Id.run, pure, ne_eq, Point64.mk.injEq, Bool.or_eq_true, decide_eq_true_eq]
+  constructor
+  · rintro (h | h) ⟨h1, h2⟩
+    · exact h h1
+    · exact h h2
+  · intro h
+    by_cases h1 : ‹Int64› = ‹Int64›
+    all_goals grind
+
+theorem equals_iff (p q : Point64) : Point64_Equals p q = true ↔ p = q := by
+  cases p; cases q
+  simp [Point64_Equals, Id.run, pure]
+
+/-- the kept points after `last` -/
+def strip (last : Point64) : List Point64 → List Point64
+  | [] => []
+  | q :: t => if last ≠ q then q :: strip q t else strip last t
+
+abbrev step (st : Point64 × List Point64) (q : Point64) : Point64 × List Point64 :=
+  if Point64_NEquals st.1 q then (q, q :: st.2) else st
+
+theorem fold_snd (rest : List Point64) : ∀ (last : Point64) (acc : List Point64),
+    (rest.foldl step (last, acc)).2 = (strip last rest).reverse ++ acc := by
+  induction rest with
+  | nil => intro last acc; simp [strip]
+  | cons q t ih =>
+    intro last acc
+    simp only [List.foldl_cons, step, strip]
+    by_cases h : last ≠ q
+    · have h' := (nequals_iff last q).2 h
+      rw [if_pos h', if_pos h, ih]; simp
+    · have h' : Point64_NEquals last q = false := by
+        cases hh : Point64_NEquals last q
+        · rfl
+        · exact absurd ((nequals_iff last q).1 hh) h
+      simp [h', h, ih]
+
+theorem strip_sub (rest : List Point64) : ∀ last, (strip last rest).Sublist rest := by
+  induction rest with
+  | nil => intro last; simp [strip]
+  | cons q t ih =>
+    intro last
+    simp only [strip]
+    split
+    · exact (ih q).cons_cons q
+    · exact (ih last).cons q
+
+theorem strip_noadj (rest : List Point64) : ∀ (p0 : Point64) (i : Nat)
+    (h : i + 1 < (p0 :: strip p0 rest).length),
+    (p0 :: strip p0 rest)[i] ≠ (p0 :: strip p0 rest)[i + 1] := by
+  induction rest with
+  | nil => intro p0 i h; simp [strip] at h
+  | cons q t ih =>
+    intro p0 i h
+    by_cases hq : p0 ≠ q
+    · have e : strip p0 (q :: t) = q :: strip q t := by simp [strip, hq]
+      simp only [e] at h ⊢
+      cases i with
+      | zero => simpa using hq
+      | succ j =>
+        have := ih q j (by simpa using h)
+        simpa using this
+    · have e : strip p0 (q :: t) = strip p0 t := by simp [strip, hq]
+      simp only [e] at h ⊢
+      exact ih p0 i h
+
+theorem match_aux (p0 : Point64) (closed : Bool) (R : List Point64) (hR : R.reverse ≠ []) :
+    (match (generalizing := false) R with
+      | lastPt :: _ => if closed && Point64_Equals lastPt p0 then R.reverse.dropLast else R.reverse
+      | [] => R.reverse) = if closed = true ∧ R.reverse.getLast hR = p0 then R.reverse.dropLast else R.reverse := by
+  cases R with
+  | nil => simp at hR
+  | cons lastPt tl =>
+    simp only [Bool.and_eq_true, equals_iff]
+    simp
+
+/-- normal form of the model -/
+theorem strip_eq (p0 : Point64) (rest : List Point64) (closed : Bool) :
+    stripDuplicates (p0 :: rest) closed =
+      if closed = true ∧ (p0 :: strip p0 rest).getLast (by simp) = p0
+      then (p0 :: strip p0 rest).dropLast else p0 :: strip p0 rest := by
+  have hf : (List.foldl step (p0, [p0]) rest).snd.reverse = p0 :: strip p0 rest := by
+    rw [fold_snd rest p0 [p0]]; simp
+  have hm := match_aux p0 closed (List.foldl step (p0, [p0]) rest).snd (by rw [hf]; simp)
+  simp only [hf] at hm
+  unfold stripDuplicates
+  simp only
+  simp only [hf]
+  exact hm
+
+theorem strip_eq' (p0 : Point64) (rest : List Point64) (closed : Bool) :
+    stripDuplicates (p0 :: rest) closed =
+      if closed = true ∧ (p0 :: strip p0 rest).getLast? = some p0
+      then (p0 :: strip p0 rest).dropLast else p0 :: strip p0 rest := by
+  rw [strip_eq]
+  have : (p0 :: strip p0 rest).getLast? = some ((p0 :: strip p0 rest).getLast (by simp)) :=
+    List.getLast?_eq_some_getLast _
+  rw [this]
+  simp only [Option.some.injEq]
+
+theorem noadj_congr {α} {l l' : List α} (e : l = l')
+    (H : ∀ i, (h : i + 1 < l'.length) → l'[i] ≠ l'[i + 1]) :
+    ∀ i, (h : i + 1 < l.length) → l[i] ≠ l[i + 1] := by
+  subst e; exact H
+
+theorem strip_sublist (path : List Point64) (closed : Bool) :
+    (stripDuplicates path closed).Sublist path := by
+  cases path with
+  | nil => simp [stripDuplicates]
+  | cons p0 rest =>
+    rw [strip_eq']
+    have hK : (p0 :: strip p0 rest).Sublist (p0 :: rest) := (strip_sub rest p0).cons_cons p0
+    split
+    · exact (List.dropLast_sublist _).trans hK
+    · exact hK
+
+theorem strip_no_adjacent_dups (path : List Point64) (closed : Bool) :
+    ∀ i, (h : i + 1 < (stripDuplicates path closed).length) →
+      (stripDuplicates path closed)[i] ≠ (stripDuplicates path closed)[i + 1] := by
+  cases path with
+  | nil => intro i h; simp [stripDuplicates] at h
+  | cons p0 rest =>
+    refine noadj_congr (strip_eq' p0 rest closed) ?_
+    split
+    · intro i h
+      rw [List.getElem_dropLast, List.getElem_dropLast]
+      exact strip_noadj rest p0 i (by simp at h ⊢; omega)
+    · exact strip_noadj rest p0
+
+theorem ends_aux (p0 : Point64) (K : List Point64) (hhead : K.head? = some p0)
+    (hadj : ∀ (i : Nat) (h : i + 1 < K.length), K[i] ≠ K[i + 1])
+    (h : 1 < (if true = true ∧ K.getLast? = some p0 then K.dropLast else K).length) :
+    (if true = true ∧ K.getLast? = some p0 then K.dropLast else K).head? ≠
+      (if true = true ∧ K.getLast? = some p0 then K.dropLast else K).getLast? := by
+  rw [List.head?_eq_getElem?] at hhead
+  rw [List.getLast?_eq_getElem?] at h ⊢
+  split at h
+  · rename_i hc
+    rw [if_pos hc]
+    have hlen : 2 < K.length := by simp at h; omega
+    rw [List.head?_dropLast, List.getLast?_eq_getElem?, List.length_dropLast,
+      List.getElem?_eq_getElem (by simp; omega), List.getElem_dropLast,
+      if_pos (by omega), List.head?_eq_getElem?, hhead]
+    intro he
+    have he : p0 = K[K.length - 1 - 1] := by simpa using he
+    have h2 := hc.2
+    rw [List.getElem?_eq_getElem (by omega)] at h2
+    have h2 : K[K.length - 1] = p0 := by simpa using h2
+    have := hadj (K.length - 1 - 1) (by omega)
+    apply this
+    rw [← he, ← h2]
+    congr 1; omega
+  · rename_i hc
+    rw [if_neg hc]
+    rw [List.getLast?_eq_getElem?, List.head?_eq_getElem?, hhead]
+    intro he
+    exact hc ⟨rfl, he.symm⟩
+
+theorem strip_closed_ends_differ (path : List Point64) (h : 1 < (stripDuplicates path true).length) :
+    (stripDuplicates path true).head? ≠ (stripDuplicates path true).getLast? := by
+  cases path with
+  | nil => simp [stripDuplicates] at h
+  | cons p0 rest =>
+    rw [strip_eq'] at h ⊢
+    exact ends_aux p0 _ rfl (strip_noadj rest p0) h
+
+theorem strip_self (rest : List Point64) : ∀ (p0 : Point64)
+    (_ : ∀ i, (h : i + 1 < (p0 :: rest).length) → (p0 :: rest)[i] ≠ (p0 :: rest)[i + 1]),
+    strip p0 rest = rest := by
+  induction rest with
+  | nil => intro p0 _; rfl
+  | cons q t ih =>
+    intro p0 h1
+    have hq : p0 ≠ q := by simpa using h1 0 (by simp)
+    have := ih q (fun i h => by
+      have := h1 (i + 1) (by simpa using h)
+      simpa only [List.getElem_cons_succ] using this)
+    simp [strip, hq, this]
+
+/-- `C05.strip_id` with the extra hypothesis it needs: a closed one-point path is NOT returned
+    unchanged (the model, like the Go code, returns the empty path for it). -/
+theorem strip_id_fixed (path : List Point64) (closed : Bool)
+    (h1 : ∀ i, (h : i + 1 < path.length) → path[i] ≠ path[i + 1])
+    (h2 : closed = true → 1 < path.length → path.head? ≠ path.getLast?)
+    (h3 : closed = true → path.length ≠ 1) :
+    stripDuplicates path closed = path := by
+  cases path with
+  | nil => simp [stripDuplicates]
+  | cons p0 rest =>
+    rw [strip_eq', strip_self rest p0 h1]
+    split
+    · rename_i hc
+      exfalso
+      have hlen : 1 < (p0 :: rest).length := by
+        have := h3 hc.1
+        simp at this ⊢
+        cases rest with
+        | nil => simp at this
+        | cons _ _ => simp
+      exact h2 hc.1 hlen (by rw [hc.2]; rfl)
+    · rfl
+
+/-- counterexample to `C05.strip_id` as stated -/
+theorem strip_id_counterexample :
+    let a : Point64 := ⟨0, 0⟩
+    (∀ i, (h : i + 1 < [a].length) → [a][i] ≠ [a][i + 1]) ∧
+    (true = true → 1 < [a].length → [a].head? ≠ [a].getLast?) ∧
+    stripDuplicates [a] true ≠ [a] := by
+  refine ⟨fun i h => by simp at h, fun _ h => by simp at h, by decide⟩
+
 end Proofs.C05
